@@ -182,7 +182,8 @@ pub fn random_cfg(rng: &mut impl Rng, profile: &str) -> Cfg {
         user: pick(rng, &["alice", "alice", "ali\u{e9}ce", "x"]).to_string(),
         // sometimes a password that OpaqueString changes (NO-BREAK SPACE -> SPACE)
         // ... or that is not in normalization form C (e + COMBINING ACUTE ACCENT -> U+00E9)
-        password: pick(rng, &["s3cret-pass", "s3cret-pass", "s3cret\u{00A0}pass", "s3cre\u{301}t-pass"]).to_string(),
+        // ... or that begins / ends with a blank (OpaqueString keeps them)
+        password: pick(rng, &["s3cret-pass", "s3cret-pass", "s3cret\u{00A0}pass", "s3cre\u{301}t-pass", " s3cret-pass", "s3cret-pass "]).to_string(),
     }
 }
 
